@@ -853,8 +853,12 @@ pub mod gff {
             ensure!(!k.is_empty() && k.chars().all(|c| c.is_ascii_alphanumeric() || c == '_'), "harness: key {:?} outside [A-Za-z0-9_]+", k);
             ensure!(!vs.is_empty(), "harness: key {:?} without value", k);
             for v in vs {
-                ensure!(!v.is_empty(), "harness: empty value for key {:?}", k);
+                // an empty string is a legal member of a list of two or more values; alone it is no value at all
+                ensure!(!v.is_empty() || (vs.len() >= 2 && d == Dialect::GFF3), "harness: empty value for key {:?} outside a GFF3 value list", k);
                 ensure!(!v.contains([kv, term, vd, '\t', '\n', '\r', '\0']), "harness: value {:?} contains a delimiter of {:?}", v, d);
+                if v.is_empty() {
+                    continue;
+                }
                 let (f, l) = (v.chars().next().unwrap(), v.chars().last().unwrap());
                 ensure!(!matches!(f, '\'' | '"' | ' ') && !matches!(l, '\'' | '"' | ' '), "harness: value {:?} starts/ends with a quote or space", v);
             }
@@ -1001,6 +1005,9 @@ pub mod gff {
         });
         p.add_if(multi, "multi-valued attribute");
         p.add_if(c.recs.iter().any(|r| r.attrs.iter().any(|(_, v)| v.len() >= 3)), "attribute with 3 values");
+        p.add_if(c.recs.iter().any(|r| r.attrs.iter().any(|(_, v)| v.len() >= 2 && v.last().map_or(false, |x| x.is_empty()))), "multi-valued attribute whose last value is empty");
+        p.add_if(c.recs.iter().any(|r| r.attrs.iter().any(|(_, v)| v.len() >= 2 && v[..v.len() - 1].iter().any(|x| x.is_empty()))), "multi-valued attribute with an empty value before the last");
+        p.add_if(c.recs.iter().any(|r| r.attrs.iter().any(|(_, v)| v.len() >= 2 && v.iter().all(|x| x.is_empty()))), "multi-valued attribute, all values empty");
         p.add_if(c.recs.iter().any(|r| r.attrs.is_empty()), "record without attributes");
         p.add_if(c.recs.iter().any(|r| r.attrs.len() >= 2), ">=2 keys");
         p.add_if(c.recs.iter().any(|r| r.attrs.iter().filter(|(_, v)| v.len() >= 2).count() >= 2), ">=2 multi-valued keys");
@@ -1272,8 +1279,28 @@ pub mod gff {
 
     pub fn strat_rt(_t: Tier) -> BS<RtCase> {
         dialect()
-            .prop_flat_map(|d| (Just(d), pvec(rec(d, false), 1..=5), comments(false, 3), prop_oneof![4 => Just(true), 1 => Just(false)]))
-            .prop_map(|(dialect, recs, comments, final_newline)| RtCase { dialect, recs, comments, final_newline })
+            .prop_flat_map(|d| (Just(d), pvec(rec(d, false), 1..=5), comments(false, 3), prop_oneof![4 => Just(true), 1 => Just(false)], prop_oneof![3 => Just(Vec::new()), 2 => pvec(any::<[u16; 3]>(), 1..=3)]))
+            .prop_map(|(dialect, mut recs, comments, final_newline, empties)| {
+                // empty strings as members of multi-valued lists (first, middle, last; several): a value
+                // list of two or more entries may hold empty ones (a single empty value is outside the
+                // domain: `key=` carries no value at all)
+                // (GFF3 only: GFF2/GTF2 write every value as its own `key value` pair, where an empty value is
+                // again no value at all)
+                for [a, b, c] in empties {
+                    if dialect != Dialect::GFF3 {
+                        break;
+                    }
+                    let r = idx(a, recs.len() - 1);
+                    let multi: Vec<usize> = recs[r].attrs.iter().enumerate().filter(|(_, (_, v))| v.len() >= 2).map(|(i, _)| i).collect();
+                    if !multi.is_empty() {
+                        let k = multi[idx(b, multi.len() - 1)];
+                        let vals = &mut recs[r].attrs[k].1;
+                        let i = idx(c, vals.len() - 1);
+                        vals[i] = String::new();
+                    }
+                }
+                RtCase { dialect, recs, comments, final_newline }
+            })
             .boxed()
     }
 
